@@ -11,6 +11,7 @@ search         : from-scratch oracle of the property text on every run (destinat
 from __future__ import annotations
 
 import concurrent.futures as cf
+import io
 import json
 import os
 import re
@@ -20,7 +21,7 @@ import sys
 
 from .. import coqio as C
 from .. import impl_c14_inject as J
-from ..core import NPROC, Check, coqc_file, split_evals
+from ..core import NPROC, WORK, Check, coqc_file, split_evals
 
 THEOREMS = {n: "Props.C14" for n in [
     "C14_atomic", "C14_atomic_py", "C14_atomic_prefix", "C14_error_reports_and_preserves",
@@ -32,7 +33,8 @@ From AV Require Import Base.Prelude Model.SaveFS Run.SaveFSRun."""
 IO4 = ("open", "write", "close", "replace")
 SC = {"makedirs": "SMakedirs", "open": "SOpen", "write": "SWrite", "close": "SClose",
       "replace": "SReplace", "exists": "SExists", "remove": "SRemove"}
-RES = {"ok": "ROk", "fail": "RFail", "die": "RDie", "true": "RTrue", "false": "RFalse"}
+# a short write that was accepted is, for the model, a write of that shorter chunk (see abstract)
+RES = {"ok": "ROk", "short": "ROk", "fail": "RFail", "die": "RDie", "true": "RTrue", "false": "RFalse"}
 
 
 # ----------------------------------------------------------------------
@@ -46,7 +48,7 @@ def cbytes(b: bytes) -> str:
 
 
 def cdec(d) -> str:
-    return "Ok" if d[0] == "ok" else f"({'Fail' if d[0] == 'fail' else 'Die'} {int(d[1])}%nat)"
+    return "Ok" if d[0] in ("ok", "short") else f"({'Fail' if d[0] == 'fail' else 'Die'} {int(d[1])}%nat)"
 
 
 def abstract(obs):
@@ -56,9 +58,12 @@ def abstract(obs):
 
     def ren(p):
         return dst + ".PID" if tmp_real is not None and p == tmp_real else p
-    chunks = [bytes.fromhex(e["data"]) for e in obs["events"] if e["sc"] == "write"]
+    # the data of the successive raw write calls; of a short write only the accepted part counts
+    # (the retry of the rest, if the code retries, is the next call)
+    chunks = [bytes.fromhex(e["data"])[:e["n"]] if e["res"] == "short" else bytes.fromhex(e["data"])
+              for e in obs["events"] if e["sc"] == "write"]
     if not chunks:
-        chunks = [J.encode(J.NEW_DATA, obs["cfg"]["compress"])]
+        chunks = [J.encode(J.new_data_of(obs["cfg"]), obs["cfg"]["compress"])]
     return ren, chunks
 
 
@@ -126,6 +131,7 @@ class Oracle:
         errs = []
         cfg, dst = obs["cfg"], obs["dst"]
         comp = cfg["compress"]
+        new_data = J.new_data_of(cfg)
         old = obs["before"]["files"].get(dst)
         now = obs["after"]["files"].get(dst)
         out = obs["out"]
@@ -134,21 +140,44 @@ class Oracle:
         fails = [e["sc"] for e, d in zip(obs["events"], obs["plan"]) if e["res"] == "fail" and d[0] == "fail"]
         where = describe(obs)
         learner = cfg.get("via") == "learner"
+        load = self.learner_load if learner else self.load_bytes
         # destination: complete previous or complete new version, loadable
         if now is None:
             if old is not None:
                 errs.append(("destination-lost", f"{where}: the destination no longer exists"))
         else:
-            st, val = (self.learner_load if learner else self.load_bytes)(bytes.fromhex(now), comp)
+            st, val = load(bytes.fromhex(now), comp)
             if st != "ok":
                 errs.append(("damaged", f"{where}: the destination cannot be loaded ({val})"))
-            elif not ((old is not None and val == J.OLD_DATA) or val == J.NEW_DATA):
-                errs.append(("not-old-or-new", f"{where}: the destination loads to {val!r}, neither the previous nor the new data"))
-        # a failing save reports failure and leaves the previous version alone
-        if fails:
+            elif not ((old is not None and val == J.OLD_DATA) or val == new_data):
+                errs.append(("not-old-or-new", f"{where}: the destination loads to {str(val)[:80]!r}, neither the previous nor the new data"))
+
+        def success():
+            if now is None or load(bytes.fromhex(now), comp) != ("ok", new_data):
+                errs.append(("success-broken", f"{where}: save reported success but the destination does not hold the new data"))
+            extra = set(obs["after"]["files"]) - set(obs["before"]["files"]) - {dst}
+            if extra:
+                errs.append(("temp-left-after-success", f"{where}: files left behind after a successful save: {sorted(extra)}"))
+
+        def untouched(why):
             if now != old or obs["same_inode"] is False:
-                errs.append(("failure-touched-previous", f"{where}: an OSError was raised in {fails} but the previous version was "
+                errs.append(("failure-touched-previous", f"{where}: {why} but the previous version was "
                              + ("replaced/modified" if now != old else "rewritten")))
+
+        if "rlimit" in cfg:
+            # the real kernel refuses to let files grow beyond the limit; nothing is injected or observed
+            fits = len(J.encode(new_data, comp)) <= cfg["rlimit"]
+            if out == ["returned", True]:
+                success()
+            elif out == ["returned", False] or out[0] == "raised":
+                untouched(f"save reported failure ({out})")
+                if fits:
+                    errs.append(("success-broken", f"{where}: the file fits but save gave {out}"))
+            else:
+                errs.append(("unexpected-exception", f"{where}: {out}"))
+        elif fails:
+            # a failing save reports failure and leaves the previous version alone
+            untouched(f"an OSError was raised in {fails}")
             if not died and not learner:
                 if all(f in IO4 for f in fails):
                     if out != ["returned", False]:
@@ -156,16 +185,14 @@ class Oracle:
                 elif not (out == ["returned", False] or out[0] == "raised"):
                     errs.append(("failure-not-reported", f"{where}: OSError in {fails}, save gave {out}"))
         elif not died:
-            # nothing failed, nobody died
+            # nothing failed (short writes are not failures), nobody died
             if not learner and out != ["returned", True]:
                 errs.append(("success-broken", f"{where}: fault-free save gave {out} instead of True"))
             if learner and out[0] != "learner_returned":
                 errs.append(("success-broken", f"{where}: fault-free learner.save gave {out}"))
-            if now is None or (self.learner_load if learner else self.load_bytes)(bytes.fromhex(now), comp) != ("ok", J.NEW_DATA):
-                errs.append(("success-broken", f"{where}: after a fault-free save the destination does not hold the new data"))
-            extra = set(obs["after"]["files"]) - set(obs["before"]["files"]) - {dst}
-            if extra:
-                errs.append(("temp-left-after-success", f"{where}: files left behind after a successful save: {sorted(extra)}"))
+            success()
+        if out == ["returned", True] and not errs:
+            success()                    # whatever happened on the way: True means the new version is in place
         # bystanders are never touched
         for p, h in obs["before"]["files"].items():
             if p != dst and not p.startswith(dst + ".") and obs["after"]["files"].get(p) != h:
@@ -176,6 +203,10 @@ class Oracle:
 def describe(obs):
     c = obs["cfg"]
     plan = ",".join("ok" if d[0] == "ok" else f"{d[0]}({d[1]})" for d in obs["plan"]) or "no fault"
+    if c.get("stale"):
+        plan += "; stale temp file present"
+    if c.get("big"):
+        plan += f"; {c['big']}-entry payload"
     calls = ">".join(f"{e['sc']}:{e['res']}" for e in obs["events"])
     return (f"save({obs['dst']!r}, compress={c['compress']}, previous file={c['prev']}, layout={c['layout']}"
             f"{', via learner.save' if c.get('via') else ''}) plan [{plan}] calls [{calls}] ({obs['where']})")
@@ -190,7 +221,15 @@ def lens_for(m, quick):
     return sorted(x for x in ls if x >= 0)
 
 
+def shorts_for(m, quick):
+    """Sizes k (1 <= k < m) of a short write: the raw write accepts k bytes and returns k, no error."""
+    ks = {1, m // 2} if quick else {1, m // 2, m - 1}
+    return sorted(k for k in ks if 1 <= k < m)
+
+
 def explore(cfg, root, quick, on_obs, die_jobs, plan=()):
+    """Depth-first over the decision tree of the real code: every call reached beyond the forced
+    prefix is made to fail / die (/ come back short, at most once per plan) in turn."""
     plan = [list(d) for d in plan]
     obs = J.run_case(cfg, plan, root)
     on_obs(obs)
@@ -198,13 +237,21 @@ def explore(cfg, root, quick, on_obs, die_jobs, plan=()):
     for j in range(len(plan), len(evs)):
         pre = plan + [["ok"]] * (j - len(plan))
         if evs[j]["sc"] == "write":
-            ns = lens_for(len(evs[j]["data"]) // 2, quick)
+            m = len(evs[j]["data"]) // 2
+            ns = lens_for(m, quick)
+            if not any(d[0] == "short" for d in plan):
+                for k in shorts_for(m, quick):
+                    explore(cfg, root, quick, on_obs, die_jobs, pre + [["short", k]])
         else:
             ns = [0]
         for n in ns:
             die_jobs.append((cfg, pre + [["die", n]]))
             explore(cfg, root, quick, on_obs, die_jobs, pre + [["fail", n]])
     return obs
+
+
+def has_short(plan):
+    return any(d[0] == "short" for d in plan)
 
 
 def run_workers(jobs, base, log):
@@ -249,6 +296,18 @@ def coq_cases(chk: Check, cases, shard=150, timeout=900):
             legal += C.parse_nat(parts[1])
     chk.checker_cmds.append(f"coqc cases_*.v ({len(files)} shards, comparison by vm_compute inside Coq)")
     return sorted(mism), legal, errors
+
+
+def big_config():
+    """A payload larger than the I/O buffer: the real BufferedWriter then writes straight through during
+    f.write instead of at close.  Oracle only (kilobytes per file are not shipped to Coq)."""
+    try:
+        blk = max(getattr(os.stat(str(WORK)), "st_blksize", 0), io.DEFAULT_BUFFER_SIZE)
+    except OSError:
+        return None
+    if blk > 65536:
+        return None
+    return {"layout": "bare", "prev": True, "compress": False, "big": blk // 18 + 120}
 
 
 def cfg_key(cfg):
@@ -439,7 +498,10 @@ def run(chk: Check) -> int:
         n0, d0 = len(observations), len(die_jobs)
         ref = explore(cfg, os.path.join(base, "inproc"), chk.quick, on_obs, die_jobs)
         refs[cfg_key(cfg)] = ref
-        per_cfg[cfg_key(cfg)] = (len(observations) - n0) + (len(die_jobs) - d0)
+        # the model has no "short" decision (a short write is a shorter chunk): its tree is compared
+        # with the plans that contain none
+        per_cfg[cfg_key(cfg)] = (sum(1 for o in observations[n0:] if not has_short(o["plan"]))
+                                 + sum(1 for _, p in die_jobs[d0:] if not has_short(p)))
     chk.log(f"{len(cfgs)} configurations: {len(observations)} OSError plans run in-process, {len(die_jobs)} death plans")
     jobs = list(die_jobs)
     if not chk.quick:
@@ -451,32 +513,48 @@ def run(chk: Check) -> int:
     learner_obs, ljobs = [], []
     for cfg in lcfgs:
         explore(cfg, os.path.join(base, "inproc"), True, learner_obs.append, ljobs)
+    # ... and with a payload larger than the I/O buffer (oracle only)
+    nbig = 0
+    if big_config():
+        n0 = len(learner_obs) + len(ljobs)
+        explore(big_config(), os.path.join(base, "inproc"), True, learner_obs.append, ljobs)
+        nbig = len(learner_obs) + len(ljobs) - n0
+    # the real kernel makes the write come back short: RLIMIT_FSIZE in a forked child, nothing patched
+    # (oracle only: no call trace is observed)
+    rjobs = []
+    for comp in (True, False):
+        m = len(J.encode(J.NEW_DATA, comp))
+        for prev in (True, False):
+            for lim in sorted({0, 1, m // 2, m - 1, m, m + 100}):
+                rjobs.append(({"layout": "sub" if prev else "bare", "prev": prev, "compress": comp, "rlimit": lim}, []))
     n_main = len(jobs)
-    died = run_workers(jobs + ljobs, base, chk.log)
+    died = run_workers(jobs + ljobs + rjobs, base, chk.log)
     observations += died[:n_main]
-    learner_obs += died[n_main:]
+    learner_obs += died[n_main:n_main + len(ljobs)]
+    rlimit_obs = died[n_main + len(ljobs):]
     shutil.rmtree(os.path.join(base, "inproc"), ignore_errors=True)
     chk.log(f"{len(observations)} runs of utils.save + {len(learner_obs)} of Learner1D.save observed")
 
     # oracle + statistics
     found = []
-    for o in observations + learner_obs:
+    for o in observations + learner_obs + rlimit_obs:
         plan = o["plan"]
         for e, d in zip(o["events"], plan):
             if d[0] != "ok":
-                k = f"{e['sc']}:{'death' if d[0] == 'die' else 'OSError'}"
+                k = f"{e['sc']}:{ {'die': 'death', 'fail': 'OSError', 'short': 'short write'}[d[0]]}"
                 hist_point[k] = hist_point.get(k, 0) + 1
         hist_out[str(o["out"][:2])] = hist_out.get(str(o["out"][:2]), 0) + 1
         old, now = o["before"]["files"].get(o["dst"]), o["after"]["files"].get(o["dst"])
         k = "absent" if now is None else "previous version" if now == old else "changed (the oracle requires: loads to the new data)"
         hist_dst[k] = hist_dst.get(k, 0) + 1
-        chk.note_case((cfg_key(o["cfg"]), plan), any(d[0] != "ok" for d in plan))
+        chk.note_case((cfg_key(o["cfg"]), plan), any(d[0] != "ok" for d in plan) or "rlimit" in o["cfg"])
         if o["out"][0] == "other":
             found.append(("C14:unexpected-exception", f"{describe(o)}: {o['out'][1]}",
                           {"kind": "save", "cfg": o["cfg"], "plan": plan}))
         for clause, msg in orc.check(o)[:1]:
             found.append((f"C14:{clause}", msg, {"kind": "save", "cfg": o["cfg"], "plan": plan}))
     # one failing input per kind of failure first (the replay file keeps the first five)
+    found.sort(key=lambda f: (sum(1 for d in f[2]["plan"] if d[0] != "ok"), len(f[2]["plan"])))   # simplest plan first
     seen = set()
     firsts = [f for f in found if not (f[0] in seen or seen.add(f[0]))]
     for f in firsts + [f for f in found if f not in firsts][:40]:
@@ -540,12 +618,22 @@ def run(chk: Check) -> int:
                            "file, none} x {no dirname, existing dirname, dirname to be created"
                            + ("" if chk.quick else ", absolute path") + "} x partial-write lengths "
                            + ("{0,1,half,all-1}" if chk.quick else "{0,1,half,all-1,all,>all}")
+                           + " x {no short write, one raw write accepted short at " + ("{1,half}" if chk.quick else "{1,half,all-1}")
+                           + " bytes without error}"
                            + ("" if chk.quick else "; deaths by os._exit(9) and by SIGKILL; stale temp file variants; 5 OSError subclasses"),
         "configurations": len(cfgs), "corpus_cases": ncorpus, "runs_compared_in_coq": len(cases), "mismatches": len(mism),
         "observed_states_satisfying_C14_atomic_in_coq": atomic_ok,
         "configs_whose_plan_count_equals_model_tree": f"{tree_ok}/{len(cfgs)}",
         "death_runs": sum(1 for o in observations if o["out"][0] == "died"),
-        "learner_level_runs_oracle_only": len(learner_obs), "load_absent_cases": nload,
+        "learner_level_runs_oracle_only": len(learner_obs) - nbig, "load_absent_cases": nload,
+        "runs_with_payload_larger_than_io_buffer_oracle_only": nbig,
+        "fault_layer": "raw file (io.RawIOBase under the real io.BufferedWriter when the code asks for buffering; handed out raw for "
+                       "buffering=0); the injected open honours mode and buffering",
+        "runs_with_a_short_write": sum(1 for o in observations if has_short(o["plan"])),
+        "short_writes_note": "a short write is an environment choice at the raw write step; in the Coq comparison it is a write of "
+                             "the accepted chunk (model unchanged: the theorems hold for every chunking), so whether the REST was "
+                             "retried is decided by the oracle alone (save returned True => the destination loads to the new data)",
+        "real_kernel_RLIMIT_FSIZE_runs_oracle_only": len(rlimit_obs),
         "failure_point_histogram": dict(sorted(hist_point.items())),
         "outcome_histogram": hist_out, "destination_after_histogram": hist_dst})
     chk.log(f"correspondence: {len(cases)} runs, {len(mism)} mismatches, atomic-in-coq {atomic_ok}; "
@@ -585,7 +673,7 @@ def replay(doc) -> int:
             print("replayed load", r, "->", diff or "unchanged")
             bad += bool(diff)
         elif r.get("kind") == "save":
-            if any(d[0] == "die" for d in r["plan"]):
+            if any(d[0] == "die" for d in r["plan"]) or "rlimit" in r["cfg"]:
                 o = run_workers([(r["cfg"], r["plan"])], base, print)[0]
             else:
                 o = J.run_case(r["cfg"], r["plan"], os.path.join(base, "inproc"))
